@@ -278,7 +278,7 @@ def separates_rules(rep, prog):
         rep.unk("SEP.outcome", fwhere(f), "separates has %d return statements besides the early `False`: which of them is the verdict after all paths is not read" % (len(rets) - len(f_rets)))
         return
     if not shape or not calls:
-        rep.bad("SEP.outcome", fwhere(f), "outcome is not `False as soon as some path avoids S, True after all paths were inspected`")
+        rep.bad_form("SEP.outcome", fwhere(f), "outcome is not `False as soon as some path avoids S, True after all paths were inspected`")
         return
     path_elem = ("elem", calls[0].result)
     PS_ = ("param", "S")
